@@ -282,20 +282,20 @@ def run_c10(ctx):
     full_disk = dict(mounted=False)
     import fam_proc
     mnt = fam_proc.mount_small_fs(ctx, "smallfs")
-    if mnt:
+    if True:
         try:
-            _, fstats = fam_proc.real_sinks(ctx, tier, prop="C10", smallfs=mnt)
+            # where mounting is not permitted: the same scripts under a file-size limit of the process (EFBIG instead of ENOSPC)
+            _, fstats = fam_proc.real_sinks(ctx, tier, prop="C10", smallfs=mnt or "rlimit")
         finally:
-            fam_proc.umount(mnt)
-        full_disk = dict(mounted=True, scripts=fstats["scripts"], undecodable_published=fstats["undecodable_files_published_on_a_full_disk"])
+            if mnt:
+                fam_proc.umount(mnt)
+        full_disk = dict(mounted=bool(mnt), scripts=fstats["scripts"], undecodable_published=fstats["undecodable_files_published_on_a_full_disk"])
         if fstats["undecodable_files_published_on_a_full_disk"] > 0:
             key = "C10:partial-file-named-cptv[disk-full]"
             rp = vlib.save_replay(ctx, "C10_partial_file_disk_full", dict(family="files", property="C10", clause=key, stats=fstats,
                                   note="see findings/C10-undecodable-cptv-on-full-disk.json"))
             violations.append(dict(key=key, replay=rp, what="%d undecodable *.cptv published in %d scripts on a full 2 MB file system"
                                    % (fstats["undecodable_files_published_on_a_full_disk"], fstats["scripts"])))
-    else:
-        ctx.notes.append("no small file system could be mounted: the full-disk witness of F-C10-3 was not run")
     finals = sum(1 for e in events if e["ev"] == "killrun" for f in e["before"] if f["kind"] == "final")
     coverage = dict(full_disk_runs=full_disk, states=d.get("distinct", 0), transitions=d.get("generated", 0),
                     traces_validated_against_impl=len(ops_list) if have_strace else 0,
